@@ -118,11 +118,11 @@ class Spec:
         if self.client:
             self.build = ["l:req1", "l:req1e", "l:req3e", "l:data1", "l:end1", "l:rst1",
                           "rx:resp1", "rx:resp1e", "rx:D1", "rx:D1e", "rx:R1", "rx:PP1_2", "rx:resp2e",
-                          "cleanup", "l:close", "rx:goaway", "l:setx"]
+                          "cleanup", "l:close", "rx:goaway", "l:setx", "l:badopen2", "l:badopenbig"]
         else:
             self.build = ["rx:H1", "rx:H1e", "rx:H3e", "rx:D1", "rx:D1e", "rx:R1",
                           "l:resp1", "l:resp1e", "l:data1", "l:end1", "l:rst1", "l:push1_2", "l:resp2e",
-                          "cleanup", "l:close", "rx:goaway", "l:setx"]
+                          "cleanup", "l:close", "rx:goaway", "l:setx", "l:badpush1_3"]
 
     def initial(self):
         s = S(self.client, True)
@@ -179,6 +179,13 @@ class Spec:
                 return h.api("reset_stream", 1)
             if a == "push1_2":
                 return h.api("push_stream", 1, 2, H.ni(H.REQ))
+            if a == "badopen2":
+                # opens that must be refused for their id alone (wrong parity, above 2^31-1): the id stays unused
+                return h.api("send_headers", 2, H.ni(H.REQ))
+            if a == "badopenbig":
+                return h.api("send_headers", 2 ** 31 + 1, H.ni(H.REQ))
+            if a == "badpush1_3":
+                return h.api("push_stream", 1, 3, H.ni(H.REQ))
             if a == "setx":
                 # a well-behaved call: an extension setting the connection holds no value for stays pending
                 return h.api("update_settings", {0x99: 1})
@@ -217,7 +224,7 @@ class Spec:
             # build actions are judged for exception type + silence only
             if lab.startswith("l:"):
                 a = lab[2:]
-                if a.startswith(("req", "resp")):
+                if a.startswith(("req", "resp")) and a[-1] != "x":
                     st.attempted.add(int(a.rstrip("e")[-1]))
                 if a == "push1_2":
                     st.attempted.add(2)
@@ -320,8 +327,9 @@ class Spec:
 
         status = h.m.status(strict_sid) if strict_sid is not None else None
         strict = (strict_sid is not None and status in ("forgotten", "unused_high")
-                  and not h.m.closed and (h.m.hi_local or h.m.hi_peer)
-                  and not st.dirty and strict_sid not in st.attempted)
+                  and not h.m.closed and (h.m.hi_local or h.m.hi_peer))
+        # (until the repairs 005d047 / 1296ece a refused send_headers / push_stream could leave the stream it was going to
+        # open behind, and the expectation was waived for ids handed to a refused call; it no longer is)
         if method == "send_headers":
             st.attempted.add(args[0])
         if method == "push_stream":
